@@ -27,6 +27,7 @@ import jsonpath
 from jpsim import core
 from jpsim import gen_json
 from jpsim import gen_query
+from jpsim import tripwire
 from jpsim.core import Ctx
 from jpsim.core import Violation
 from jpsim.fs import SimFile
@@ -58,7 +59,7 @@ ASSUMPTIONS = [
     "no failing reads are injected: the statement gives them no meaning; fault kinds are abandonment of a lazy result, short reads "
     "(read(n) returning fewer than n units before EOF, as pipes and sockets do) and the caller closing its stream once the call has returned",
 ]
-PROBES = ["large_document", "compound_x_stream_form", "lazy_alive_across_another_read", "match_on_empty", "query_values_view", "ctx_passed", "error_parity_case"]
+PROBES = ["foreign_environment_in_process", "large_document", "compound_x_stream_form", "lazy_alive_across_another_read", "match_on_empty", "query_values_view", "ctx_passed", "error_parity_case"]
 
 LEVELS = ["module", "env", "compiled"]
 METHODS = ["findall", "finditer", "match", "query"]
@@ -102,6 +103,10 @@ def generate(seed: int, config: str, tier: str) -> Dict[str, Any]:
         opts["p_ext"] = max(opts["p_ext"], 0.15)
     else:
         opts["p_ctx"] = 0.0
+    foreign_step = rng.random() < 0.2
+    if foreign_step:
+        opts["p_str_lit"] = 0.3
+        opts["p_filter"] = max(opts["p_filter"], 0.5)
     queries: List[Dict[str, Any]] = []
     for _ in range(rng.randint(1, 4)):
         d = rng.choice(docs)
@@ -129,6 +134,9 @@ def generate(seed: int, config: str, tier: str) -> Dict[str, Any]:
                 "close_after": frng.random() < 0.3,
             }
         )
+    if foreign_step:
+        # somewhere in the history the application builds (and uses) a differently configured environment
+        calls.insert(rng.randrange(len(calls) + 1), {"foreign_env": True, "q": rng.randrange(len(queries)), "d": 0})
     # buggify-style size knob: now and then a document is larger than any plausible read chunk
     pad = [rng.randrange(len(docs)), rng.choice([4095, 4097, 8193, 65537, 131073])] if rng.random() < 0.08 else None
     plan = {"docs": docs, "ctx": ctxdoc, "queries": queries, "calls": calls, "pad": pad}
@@ -398,6 +406,16 @@ def execute(spec: Dict[str, Any], ctx: Ctx) -> None:
         next_call += 1
         cid += 1
         ctx.switch(-cid)
+        if call.get("foreign_env"):
+            # another environment with other options and another function table appears in the process
+            fenv = tripwire.foreign_environment(False)
+            try:
+                fenv.findall(texts[call["q"] % len(texts)], copy.deepcopy(docs[call["d"] % len(docs)]))
+            except Exception:  # noqa: BLE001
+                pass
+            ctx.count("probe.foreign_environment_in_process")
+            ctx.log.add("foreign-env", cid)
+            continue
         qi = call["q"] % len(texts)
         di = call["d"] % len(docs)
         want = refs[(qi, di)]
@@ -538,6 +556,8 @@ def shrink_plan(plan: Dict[str, Any]) -> Iterator[Dict[str, Any]]:
             p["calls"] = c
             yield p
     for i, c in enumerate(plan["calls"]):
+        if c.get("foreign_env"):
+            continue
         for key, simple in (("form", "value"), ("level", "compiled"), ("method", "findall"), ("abandon_after", None), ("close_after", False)):
             if c.get(key, simple) != simple:
                 p = dict(plan)
